@@ -531,3 +531,122 @@ def float_consts_deep(body, e, depth=4, _seen=None):
             if d[0] in ("assign", "partial"):
                 out |= float_consts_deep(body, body.rv_expr(d[3]), depth - 1, _seen)
     return out
+
+
+def count_deep(F, body, pred, expand, depth=3, _stack=()):
+    """How many calls satisfying pred(call) one execution path-insensitive walk of `body` contains, where every call of an
+    expandable helper counts for what the helper contains (a helper called three times counts three times)."""
+    n = 0
+    for c in body.calls():
+        if pred(c):
+            n += 1
+        if depth > 0 and c.callee in F.bodies and c.callee not in _stack and c.callee != body.path and expand(c.callee):
+            n += count_deep(F, F.bodies[c.callee], pred, expand, depth - 1, _stack + (body.path,))
+    return n
+
+
+def ok_or_sites(body, variant):
+    """Calls `opt.ok_or(E)` / `ok_or_else(|| E)` whose error operand is (a conversion of) the given error variant:
+    [(ok_or call, [calls the Option operand is computed from])].  `x.pop().ok_or(Err)?` fails exactly when pop() gave None."""
+    out = []
+    for c in body.calls():
+        nm = c.callee.split("::")[-1]
+        if nm not in ("ok_or", "ok_or_else") or len(c.args) < 2:
+            continue
+        e1 = body.expr(c.args[1])
+
+        def has_variant(t):
+            if isinstance(t, tuple):
+                if t and t[0] == "agg" and len(t) > 2 and t[2] == variant:
+                    return True
+                return any(has_variant(y) for y in t[1:] if isinstance(y, (tuple, list)))
+            if isinstance(t, list):
+                return any(has_variant(y) for y in t)
+            return False
+        if has_variant(e1):
+            out.append((c, [x[3] for x in expr_calls(body.expr(c.args[0])) if len(x) > 3]))
+    return out
+
+
+def variant_sites(F, body, adt_suffix):
+    """Where `body` builds values of the enum: aggregates, plus uses of a variant constructor as a function
+    (`.map(ValueArray::String)`): [(bb, variant name)]."""
+    out = [(b, rv.get("variant")) for (b, i, pl, rv, sp) in aggregates(body, adt_suffix)]
+    for bi, blk in enumerate(body.blocks):
+        ops = []
+        for st in blk["stmts"]:
+            if st["k"] == "assign":
+                rv = st["rv"]
+                ops += rv.get("ops", []) + [rv[k] for k in ("op", "a", "b") if isinstance(rv.get(k), dict)]
+        t = blk["term"]
+        if t["k"] == "call":
+            ops += t["args"]
+        for o in ops:
+            if isinstance(o, dict) and o.get("k") == "const" and "fn" in o:
+                p = norm(o["fn"])
+                owner, _, var = p.rpartition("::")
+                if owner.endswith(adt_suffix):
+                    a = F.adt(adt_suffix)
+                    if a is not None and var in [v["name"] for v in a["variants"]]:
+                        out.append((bi, var))
+    return out
+
+
+def is_ctor_shim(body):
+    """the compiler-generated function behind a tuple variant / tuple struct used as `fn(fields) -> T`"""
+    return getattr(body, "kind", "") == "Ctor" or (len(body.blocks) == 1 and body.blocks[0]["term"]["k"] == "return" and
+                                                    len([s_ for s_ in body.blocks[0]["stmts"] if s_["k"] == "assign"]) == 1 and
+                                                    body.blocks[0]["stmts"][0]["rv"]["k"] == "aggregate" and body.path.split("::")[-1][:1].isupper())
+
+
+def closure_capture_expr(F, cb, idx):
+    """What the enclosing function put into capture slot `idx` of closure body `cb` (as an expression of the parent),
+    with the parent body: (parent, expr) or (None, None)."""
+    if "::{closure" not in cb.path:
+        return None, None
+    ppath = cb.path.rsplit("::{closure", 1)[0]
+    parent = F.bodies.get(ppath)
+    if parent is None:
+        return None, None
+    tail = cb.path[len(ppath):]
+    for blk in parent.blocks:
+        for st in blk["stmts"]:
+            if st["k"] == "assign" and st["rv"]["k"] == "aggregate" and st["rv"].get("agg") == "closure" and \
+                    str(st["rv"].get("closure", "")).endswith(tail) and idx < len(st["rv"]["ops"]):
+                return parent, parent.expr(st["rv"]["ops"][idx])
+    return None, None
+
+
+def resolve_captures(F, body, e, depth=2):
+    """If `e` is (a projection of) a capture slot of a closure, the parent's expression for that slot; else e."""
+    x = strip_expr(e)
+    if depth > 0 and x[0] == "place" and strip_expr(x[1]) == ("param", 0) and x[2] and x[2][0][0] == "(closure)":
+        try:
+            idx = int(x[2][0][1])
+        except ValueError:
+            return e
+        parent, pe = closure_capture_expr(F, body, idx)
+        if pe is not None:
+            return strip_expr(strip_refs(pe)) if len(x[2]) == 1 else e
+    return e
+
+
+def any_guard(F, body):
+    """`if a.zip(b).any(|(&x, &y)| x >= y) { return Err(..) }` up-front validation: [(switch bb, block reached when NO pair
+    satisfied the comparison, comparison ops used in the closure)] for the `Iterator::any` calls of `body`."""
+    out = []
+    for c in body.calls():
+        if c.callee.split("::")[-1] != "any" or c.target is None:
+            continue
+        ft = bool_switch_true_target(body, c.target)
+        if ft is None:
+            continue
+        ops = []
+        for cb in with_closures(F, body)[1:]:
+            if cb.span.line < c.span.line - 1 or cb.span.line > getattr(c.span, "eline", c.span.line) + 3:
+                continue
+            for (bb, i, pl, rv, sp) in cb.assigns():
+                if rv["k"] == "binop" and rv["op"] in ("Ge", "Gt", "Lt", "Le"):
+                    ops.append(rv["op"])
+        out.append((c.target, ft[0], ops, c))
+    return out
